@@ -159,7 +159,11 @@ func depJobs(tier string) []*Job {
 				if mlen == 300 && tier != "thorough" && off%2 == 1 {
 					continue
 				}
-				jobs = append(jobs, fmk("H_dep", P("lay", lay, "off", off, "mlen", mlen, "cc", r.next(2), "rb", r.next(3), "rsrc", []int{0, 0, 2}[r.next(3)], "conc", r.next(2), "rawmix", r.next(2))))
+				jobs = append(jobs, fmk("H_dep", P("lay", lay, "off", off, "mlen", mlen, "cc", r.next(2), "rb", r.next(3), "rsrc", []int{0, 0, 2}[r.next(3)], "conc", r.next(2), "rawmix", r.next(2), "cumjump", 0)))
+				if (lay == 2 || lay == 3) && mlen == 20 {
+					// the same with the Reader's 32-bit byte counter advanced by a symbolic amount after the first block
+					jobs = append(jobs, fmk("H_dep", P("lay", lay, "off", off, "mlen", mlen, "cc", off%2, "rb", off%3, "rsrc", 0, "conc", 0, "rawmix", 0, "cumjump", 1)))
+				}
 			}
 		}
 	}
@@ -286,7 +290,7 @@ func init() {
 		Filter: func(id string) bool { return hasPrefix(id, "cfault-") || hasPrefix(id, "wfault-") || hasPrefix(id, "rfault-") || hasPrefix(id, "rfrag-") || hasPrefix(id, "no-panic") || hasPrefix(id, "unwind") }}
 	checkDefs["C16"] = &CheckDef{Property: "C16", Jobs: depJobs,
 		Bounds: func(string) []string {
-			return []string{"hand-assembled frames with BlockIndependence = 0: preceding block sizes {3,5} {40000x2} {65536,1} {65536,65536,1} {40000x4} {70000}, stored or literal-only compressed, then one compressed block whose match has offset in {1, len(prev), len(prev)+1, 65534, 65535, everything} and length {4, 20, 300}; the bytes the match reads, the literals and the tail are symbolic, the rest concrete filler; content checksum on/off; Read (>= block, 1000-byte buffers), WriteTo; ConcurrencyOption(4) must fall back silently"}
+			return []string{"hand-assembled frames with BlockIndependence = 0: preceding block sizes {3,5} {40000x2} {65536,1} {65536,65536,1} {40000x4} {70000}, stored or literal-only compressed, then one compressed block whose match has offset in {1, len(prev), len(prev)+1, 65534, 65535, everything} and length {4, 20, 300}; the bytes the match reads, the literals and the tail are symbolic, the rest concrete filler; content checksum on/off; Read (>= block, 1000-byte buffers), WriteTo; ConcurrencyOption(4) must fall back silently", "the Reader's 32-bit decoded-bytes counter advanced by a symbolic 32-bit amount after the first 64 KiB block (layouts {65536,1} and {65536,65536,1}): decoding must not depend on it (streams longer than 4 GiB)"}
 		}, Outside: []string{"4 MiB blocks, more than 5 blocks, symbolic offsets across the window (case-split instead)"}, Assumptions: frameAssumptions}
 	checkDefs["C17"] = &CheckDef{Property: "C17", Jobs: lifeJobs,
 		Bounds: func(tier string) []string {
